@@ -493,6 +493,11 @@ impl Buffer {
                 t_info2 = self.get_height();
 
                 if matches!(self.ice_mode, IceMode::Ice) { t_flags |= ANSI_FLAG_NON_BLINK_MODE; }
+                // ASCII files carry the same ANSiFlags as ANSI files (and the reader reads them)
+                if let Some(sauce_data) = self.get_sauce() {
+                    if sauce_data.use_aspect_ratio { t_flags |= ANSI_ASPECT_RATIO_STRETCH; }
+                    if sauce_data.use_letter_spacing { t_flags |= ANSI_LETTER_SPACING_9PX; }
+                }
             },
             SauceFileType::Undefined | // map everything else just to ANSI
             SauceFileType::Ansi => {
